@@ -119,6 +119,14 @@ def f_diag_state(case):
     snap = B.snapshot(S)
     circ = Bk.mods()['c'].diagonalize(S)
     check(B.snapshot(S) == snap, 'diagonalize(state) modified the state', 'purity')
+    if case.get('fresh_copy') and hasattr(circ, 'copy'):
+        # the caller stores a copy of the returned circuit before ever running it: the copy must be the same diagonalizing circuit
+        dup = circ.copy()
+        Td = S.copy()
+        dup.forward(Td)
+        Gd, rd = _group(be, Td)
+        zero_d = ref.RefGroup(ref.RefClifford.identity(N).L[1::2], np.zeros(N, dtype=np.int64))
+        check(rd == 0 and Gd.canonical() == zero_d.canonical(), 'a copy of diagonalize(state) taken before its first use maps the state to stabilizers %s, expected |0..0>' % (Gd.canonical(),), 'state-diag-copy')
     T = S.copy()
     circ.forward(T)
     G, r = _group(be, T)
@@ -133,7 +141,7 @@ def f_diag_state(case):
 
 
 def st_diag_state(hiN, be='np'):
-    return st.integers(1, hiN).flatmap(lambda N: st.fixed_dictionaries({'be': st.just(be), 'N': st.just(N), 'rows': gen.st_clifford_rows(N)}))
+    return st.integers(1, hiN).flatmap(lambda N: st.fixed_dictionaries({'be': st.just(be), 'N': st.just(N), 'rows': gen.st_clifford_rows(N), 'fresh_copy': st.booleans()}))
 
 
 def _ham(terms):
